@@ -214,7 +214,7 @@ def h_shipped(ctx: Ctx, cfg):
 HARNESSES = {"shipped": h_shipped, "tables": h_tables, "usable": h_usable, "min_depth_lower_bound": h_min_depth_lower_bound, "min_depth_witness": h_min_depth_witness, "recursion": h_recursion}
 
 CORPUS = [("f0", None), ("f1", None), ("f2", None), ("f2b", None), ("f3", None), ("f3b", None), ("f4", None), ("f5", None), ("f5ctx", None), ("f6", None),
-          ("f7", "grammar_tuple"), ("f7", "grammar_union"), ("f7", "grammar_list"), ("f7", "grammar_mutual")]
+          ("f7", "grammar_tuple"), ("f7", "grammar_tuple2"), ("f7", "grammar_union"), ("f7", "grammar_list"), ("f7", "grammar_mutual")]
 
 
 def obligations(tier: str):
@@ -240,7 +240,7 @@ def obligations(tier: str):
             tag = fxn + ("_" + var.replace("grammar_", "") if var else "") + "_" + sname
             obs.append(Ob("min_depth_lower_bound", dict(cfg, extra=2 if T else 1), name=f"mindepth_forall_{tag}", timeout=600 if T else 100))
             obs.append(Ob("min_depth_witness", dict(cfg), name=f"mindepth_exists_{tag}", expect="refute", timeout=100, twin=False))
-    rec = [("f1", None, "Expr", True), ("f1", None, "Leaf", False), ("f4", None, "Stmt", True), ("f4", None, "Num", False), ("f7", "grammar_tuple", "Root", True), ("f7", "grammar_mutual", "Other", True), ("f7", "grammar_union", "Root", False), ("f3", None, "Root", False)]
+    rec = [("f1", None, "Expr", True), ("f1", None, "Leaf", False), ("f4", None, "Stmt", True), ("f4", None, "Num", False), ("f7", "grammar_tuple", "Root", True), ("f7", "grammar_tuple2", "ViaTuple2", True), ("f7", "grammar_mutual", "Other", True), ("f7", "grammar_union", "Root", False), ("f3", None, "Root", False)]
     for fxn, var, sname, is_rec in rec:
         cfg = {"fixture": fxn, "symbol": sname, "D": 3 if not T else 4, "fuel": 60}
         if var:
